@@ -26,7 +26,8 @@ COMPONENTS = dict(sessioncheck.COMPONENTS)
 COMPONENTS["real"] = COMPONENTS["real"] + ["second and third interpreter process (sampled runs)"]
 TECHNIQUE = ("SESSION: seeded histories interleaving validations with edits, saves, loads; frame "
              "monitor with empty footprint, registry probe against the import-time rule set after every "
-             "op, cross-process re-validation under other hash seeds")
+             "op, cross-process re-validation under other hash seeds; history differential (validations left "
+             "out of a replay must not change what the remaining ones report)")
 LEVEL_TEXT = ("Seeded exploration of histories in which validations are interleaved with every kind of "
               "operation that runs the library's internal custom validations (constructors, "
               "cardinality setters, save, load). After every op the default rule set is probed through "
